@@ -504,9 +504,14 @@ func parseTrailer(t *protocol.Trailer, buf []byte) (int, error) {
 	if buf[0] == '0' {
 		skip := len(bytestr.StrCRLF) + 1
 		if len(buf) < skip {
-			return 0, io.EOF
+			// not decidable yet, unless this can no longer become "0\r\n"
+			if bytes.HasPrefix([]byte("0\r\n"), buf) {
+				return 0, errs.ErrNeedMore
+			}
+		} else if buf[1] == '\r' && buf[2] == '\n' {
+			buf = buf[skip:]
 		}
-		buf = buf[skip:]
+		// otherwise the '0' is the first byte of a trailer field name ("0-Trace: ...")
 	}
 
 	var s HeaderScanner
